@@ -547,9 +547,16 @@ class DPRNNBase(RenameParamsMixin, nn.Module):
 
             # Collect last states for all sequences
             seq_lengths = compute_seq_lengths(batch_sizes)
-            h_last = torch.zeros(max_batch_size, self.hidden_size)  # [B, H]
+            h_last = torch.zeros(
+                max_batch_size, self.hidden_size, dtype=h_0.dtype, device=h_0.device
+            )  # [B, H]
             c_last = (
-                torch.zeros(max_batch_size, self.hidden_size)
+                torch.zeros(
+                    max_batch_size,
+                    self.hidden_size,
+                    dtype=h_0.dtype,
+                    device=h_0.device,
+                )
                 if self.has_cell_state
                 else None
             )
